@@ -11,6 +11,7 @@ from typing import (  # noqa: F401
 from typing_extensions import Type
 
 import yaml
+from yaml.constructor import SafeConstructor
 from yaml.error import Mark
 
 from yatiml.exceptions import RecognitionError, SeasoningError
@@ -19,6 +20,9 @@ from yatiml.irecognizer import IRecognizer, format_rec_error
 from yatiml.util import ScalarType, scalar_type_to_tag
 
 _Any = NewType('_Any', int)
+
+# used by Node.get_value() to parse scalars exactly like the loader does
+_scalar_constructor = SafeConstructor()
 
 
 class Node:
@@ -89,11 +93,14 @@ class Node:
         if self.yaml_node.tag == 'tag:yaml.org,2002:str':
             return str(self.yaml_node.value)
         if self.yaml_node.tag == 'tag:yaml.org,2002:int':
-            return int(self.yaml_node.value)
+            return cast(int, _scalar_constructor.construct_yaml_int(
+                self.yaml_node))
         if self.yaml_node.tag == 'tag:yaml.org,2002:float':
-            return float(self.yaml_node.value)
+            return cast(float, _scalar_constructor.construct_yaml_float(
+                self.yaml_node))
         if self.yaml_node.tag == 'tag:yaml.org,2002:bool':
-            return self.yaml_node.value in ['TRUE', 'True', 'true']
+            return cast(bool, _scalar_constructor.construct_yaml_bool(
+                self.yaml_node))
         if self.yaml_node.tag == 'tag:yaml.org,2002:null':
             return None
         raise RuntimeError('This node with tag "{}" is not of the right type'
